@@ -65,8 +65,8 @@ Proof. exact align_pos_refines. Qed.
 
 (* "the allocated byte count decreases only through reclaiming the most recent allocation, leaving a
    scope, or a reset": every other operation — allocate, grow in place or by moving, fill,
-   checkpoint, statistics, entering an aligned region, prepare / write / commit of a prepared
-   slice, claim and unclaim — leaves it at least as large, from every state that satisfies the
+   checkpoint, statistics, reserve, entering and leaving an aligned region, prepare / write /
+   commit of a prepared slice, claim and unclaim — leaves it at least as large, from every state that satisfies the
    invariant, whatever the base allocator answers *)
 Theorem C13_growing_step_never_decreases_allocated :
   forall c s0 o r i,
